@@ -159,12 +159,3 @@ example : ∃ (cfg : Cfg) (s : SWorld) (P : Pub), cfg.Sane ∧ Reach cfg true s 
 
 end Iox2.Shutdown.C17
 
-#print axioms Iox2.Shutdown.C17.drop_never_panics
-#print axioms Iox2.Shutdown.C17.all_dropped_nothing_left_partial
-#print axioms Iox2.Shutdown.C17.node_dir_left_only_by_port
-#print axioms Iox2.Shutdown.C17.all_dropped_nothing_left_refuted
-#print axioms Iox2.Shutdown.C17.live_publisher_keeps_resources
-#print axioms Iox2.Shutdown.C17.live_subscriber_keeps_resources
-#print axioms Iox2.Shutdown.C17.connections_have_a_port
-#print axioms Iox2.Shutdown.C17.reach_pubsub
-#print axioms Iox2.Shutdown.C17P.nonvacuous
